@@ -3,7 +3,7 @@
 # Like run_seed.sh, but isolated from /repo and /verif so that both can be edited meanwhile: the patch is
 # applied to the scratch worktree /root/scratch/vrepo and the checks run from a copy of /verif
 # (/root/scratch/vsnap, refreshed by `run_seed_iso.sh --sync`) whose harness depends on that worktree.
-SNAP=/root/scratch/vsnap; VREPO=/root/scratch/vrepo
+SNAP=${ISO_SNAP:-/root/scratch/vsnap}; VREPO=${ISO_REPO:-/root/scratch/vrepo}
 if [ "$1" = "--sync" ]; then
   [ -d $VREPO ] || git -C /repo worktree add --detach $VREPO HEAD >/dev/null
   git -C $VREPO checkout -q --detach "$(git -C /repo rev-parse HEAD)" && git -C $VREPO checkout -- .
